@@ -253,6 +253,10 @@ def m_list(interp, args, kwargs):
         src = interp.resolve(src)
     if isinstance(src, SList):
         return slist_copy(interp, src)
+    src = as_siter(interp, src)
+    if isinstance(src, SIter):
+        from . import texts
+        return texts.rest_of_iter(interp, src)
     return list(interp.iterate(src))
 
 
@@ -351,6 +355,7 @@ def m_enumerate(interp, args, kwargs):
     src = args[0]
     if isinstance(src, (SOpt, SChoice)):
         src = interp.resolve(src)
+    src = as_siter(interp, src)
     if isinstance(src, (SList, SIter)):
         return SEnumerate(src, start)
     return _lazy_enumerate(interp, interp.iterate(src), start)
@@ -420,6 +425,7 @@ def m_iter(interp, args, kwargs):
         x = interp.resolve(x)
     if isinstance(x, SList):
         return SIter(x, 0)
+    x = as_siter(interp, x)
     if isinstance(x, SIter):
         return x
     return interp.iterate(x)
@@ -427,7 +433,7 @@ def m_iter(interp, args, kwargs):
 
 @model(builtins.next)
 def m_next(interp, args, kwargs):
-    it = args[0]
+    it = as_siter(interp, args[0])
     from .interp import GenObj, PyRaise
     if isinstance(it, SIter):
         return it.next(interp, args[1:] if len(args) > 1 else None)
@@ -587,9 +593,12 @@ def m_str_join(interp, self, args, kwargs):
     src = args[0]
     if isinstance(src, (SOpt, SChoice)):
         src = interp.resolve(src)
-    if isinstance(src, SList):
-        from . import strings
-        return strings.join_slist(interp, self, src)
+    src = as_siter(interp, src)
+    if isinstance(src, (SList, SIter)):
+        from . import texts
+        if self != '':
+            raise Unsupported('str.join with a non-empty separator over a symbolic-length sequence')
+        return texts.join_all(interp, src) if isinstance(src, SList) else texts.join_iter(interp, src)
     items = list(interp.iterate(src))
     if not contains_sym(items, 1) and not isinstance(self, Sym):
         try:
@@ -667,6 +676,8 @@ def call_sym_method(interp, recv, name, args, kwargs):
         return strings.call_method(interp, recv, name, args, kwargs)
     if isinstance(recv, SList):
         return slist_method(interp, recv, name, args, kwargs)
+    if isinstance(recv, SIter):
+        return recv.call_method(interp, name, args, kwargs)
     if isinstance(recv, SInt):
         if name == 'bit_length':
             raise Unsupported('bit_length')
@@ -713,7 +724,8 @@ def slist_iter(interp, xs):
 
 
 def slist_copy(interp, xs):
-    return xs
+    from . import texts
+    return texts.copy_slist(interp, xs)
 
 
 def slist_binop(interp, opcls, a, b):
@@ -757,6 +769,26 @@ class SIter:
         if default is not None:
             return default[0]
         raise _pyraise(StopIteration())
+
+    def call_method(self, interp, name, args, kwargs):
+        if name == '__iter__':
+            return self
+        if name == '__next__':
+            return self.next(interp, None)
+        raise Unsupported('method %s on an iterator over a symbolic-length sequence' % name)
+
+
+def as_siter(interp, v):
+    """The (sequence, position) cell behind an object that is its own iterator (e.g. a text file opened
+    for reading, modelled as an opaque object whose interface gives `__pv_iter__`); other values unchanged."""
+    if isinstance(v, (SOpt, SChoice)):
+        v = interp.resolve(v)
+    if isinstance(v, Opaque):
+        from .api import _iface_lookup
+        m = _iface_lookup(v._pv_iface, 'methods', '__iter__')
+        if m is not None:
+            return interp.reg.call_opaque(interp, v, '__iter__', [], {})
+    return v
 
 
 class SEnumerate:
